@@ -150,7 +150,7 @@ def main(pid, tier, seed):
     lib.build_coq()
     lib.build_driver()
     lib.build_harness()
-    n = lib.ncases(120 if tier == "quick" else 12000)
+    n = lib.ncases(180 if tier == "quick" else 12000)
     rng = random.Random(seed * 7919 + int(pid[1:]))
     d = lib.casedir(pid)
     insts = lib.load_corpus(pid) + [instgen.gen_instance(rng, profile_for(pid, rng)) for _ in range(n)]
